@@ -577,6 +577,8 @@ func init() {
 		c.Fingerprint(lt, "init")
 		// round 4c: which writer a command gets (cmd/helpers/output.go, termstate/term.go; c20out.go)
 		c20Out(c, &sb)
+		// round 4c: the line store behind --snapshot / piped output (virtualterm.go, bufferedterm.go; c20virt.go)
+		c20Virt(c, &sb)
 		sb.WriteString("end Rare.Gen.C20\n")
 		return sb.String()
 	})
